@@ -1,3 +1,4 @@
+import OutlineModel.Proofs.TieMisc
 import OutlineModel.Proofs.UDP
 import OutlineModel.Gen.Consts
 import OutlineModel.Gen.Ciphers
@@ -163,5 +164,25 @@ theorem wiring : Gen.Wiring.udpTrialBuffersLocalAndDistinct = true ∧ Gen.Wirin
 example : relayReply Gen.serverUDPBufferSize Gen.maxAddrLen
     { client := "c", sock := 0, key := 0, keyId := "k", saltSize := 32, tagSize := 16 } [203, 0, 113, 10] 53 [1, 2, 3] =
     [.toClient "c" 0 ([1, 203, 0, 113, 10, 0, 53, 1, 2, 3]) 58, .fromTarget "OK" 3 58] := by decide
+
+
+/-! ### The UDP key search, about the code itself
+
+`Gen.Code.findAccessKeyUDP` is TRANSLATED from service/udp.go on every run (extract/golean.go); the key list is an interface
+(its snapshot is a parameter, its `MarkUsedByClientIP` call is recorded in the function's effect log), `shadowsocks.Unpack` is
+a parameter. -/
+
+/-- **code_findAccessKeyUDP**: the translated search never panics; over ANY snapshot (any key list, order, cipher mix) it
+    returns the plaintext, id and key of the first entry whose key opens the datagram and marks exactly that entry used; if no
+    key opens it: an error, no plaintext, no call on the list -/
+theorem code_findAccessKeyUDP
+    (unpack : List UInt8 → List UInt8 → GoRT.Opaque "shadowsocks.EncryptionKey" → List UInt8 × Option String)
+    (snapOf : GoRT.Opaque "service.CipherList" → GoRT.Opaque "netip.Addr" → List (GoRT.ListElem Gen.Code.CipherEntry))
+    (dst src : List UInt8) (cl : GoRT.Opaque "service.CipherList") (ip : GoRT.Opaque "netip.Addr") (l : GoRT.Opaque "slog.Logger") :
+    Gen.Code.findAccessKeyUDP snapOf unpack ip dst src cl l =
+      some (match (snapOf cl ip).find? (fun e => Tie.Misc.opensU unpack dst src e.Value.CryptoKey) with
+        | some e => ((unpack dst src e.Value.CryptoKey).1, e.Value.ID, e.Value.CryptoKey, none, [Tie.Misc.markEff cl ip e])
+        | none => ([], "", ⟨0⟩, some "could not find valid UDP cipher", [])) :=
+  Tie.Misc.findAccessKeyUDP_tie unpack dst src cl ip snapOf l
 
 end OutlineModel.Props.C03
